@@ -625,6 +625,39 @@ fn cmd_shrinkfile(path: &str, prop: &str, clause: &str) -> i32 {
     0
 }
 
+/// random cases for the comparison stub, to be cross-checked against the real python code
+fn cmd_cmpcases(n: u64, seed: u64) -> i32 {
+    let mut r = rng::Rng::new(seed);
+    let cfg = Config { cmp: Cmp::Semantic, names: Names::Parts, noise: true };
+    let names = ["a", "b", "c", "d"];
+    for _ in 0..n {
+        let pick = |r: &mut rng::Rng| -> Vec<String> {
+            let mut v: Vec<String> = names.iter().filter(|_| r.chance(1, 2)).map(|s| s.to_string()).collect();
+            if v.is_empty() {
+                v.push("a".to_string());
+            }
+            v
+        };
+        let up_parts = pick(&mut r);
+        let down_inputs: Option<Vec<String>> = if r.chance(1, 4) { None } else { Some(pick(&mut r)) };
+        let rec = |r: &mut rng::Rng, parts: &[String]| -> String {
+            let vals: Vec<(String, u64)> = parts.iter().map(|p| (p.clone(), r.below(3) as u64)).collect();
+            world::format_record(&vals, r.below(3) as u64)
+        };
+        // the "now" record always holds the upstream's current outputs; the "last" one may stem from
+        // a differently named job
+        let last_parts = if r.chance(1, 2) { up_parts.clone() } else { pick(&mut r) };
+        let last = rec(&mut r, &last_parts);
+        let now = rec(&mut r, &up_parts);
+        let expect = match world::altered(&cfg, &up_parts, down_inputs.as_deref(), &last, &now) {
+            Ok(b) => json!(b),
+            Err(_) => json!("raise"),
+        };
+        println!("{}", json!({"up_parts": up_parts, "down_inputs": down_inputs, "last": last, "now": now, "expect": expect}));
+    }
+    0
+}
+
 fn cmd_trace(path: &str) -> i32 {
     let s = std::fs::read_to_string(path).expect("read");
     let sc: Scenario = match serde_json::from_str::<ReplayFile>(&s) {
@@ -691,6 +724,7 @@ fn main() {
         Some("replay") if args.len() >= 3 => cmd_replay(&args[2], args.iter().any(|a| a == "--quiet")),
         Some("dump") if args.len() >= 4 => cmd_dump(&args[2], args[3].parse().unwrap_or(0), args.iter().any(|a| a == "--thorough")),
         Some("trace") if args.len() >= 3 => cmd_trace(&args[2]),
+        Some("cmpcases") if args.len() >= 4 => cmd_cmpcases(args[2].parse().unwrap_or(1000), args[3].parse().unwrap_or(1)),
         Some("shrink") if args.len() >= 5 => cmd_shrink(&args[2], args[3].parse().unwrap_or(0), &args[4], args.iter().any(|a| a == "--thorough")),
         Some("survey") if args.len() >= 4 => cmd_survey(&args[2], args[3].parse().unwrap_or(1000), args.iter().any(|a| a == "--thorough")),
         Some("digest") if args.len() >= 6 => cmd_digest(&args[2], args[3].parse().unwrap(), args[4].parse().unwrap(), args[5].parse().unwrap()),
